@@ -54,7 +54,15 @@ pub fn run(ctx: &mut Ctx) -> Report {
 		("rsaSha256", &PKCS_RSA_SHA256, fixture("rsa2048.pk8")),
 	];
 	for (name, alg, der) in &keyset {
-		let k = load(alg, der);
+		let k = match std::panic::catch_unwind(std::panic::AssertUnwindSafe(|| load(alg, der))) {
+			Ok(k) => k,
+			Err(_) => {
+				s.rep.violate(&format!("C16:fixture-key-load:{}:{}", build(), name), "a key every build must be able to use does not load in this build", format!("build={} algorithm={} PKCS#8={}\n{}", build(), name, hex(der), crate::last_panic()));
+				let req = s.drv.requests;
+				s.rep.add("driver_requests", req);
+				return s.rep;
+			},
+		};
 		s.ctx.keys.insert(format!("fx-{}", name), Arc::new(k));
 	}
 	// issuers from the fixture keys (parameters expressible in every build)
@@ -111,6 +119,36 @@ pub fn run(ctx: &mut Ctx) -> Report {
 		if let Some(der) = &o.der {
 			let signer = s.issuers[i].key.clone();
 			verify_everywhere(&mut s, "crl", der, &signer);
+		}
+	}
+	// the same fixed keys through every key-loading entry point and every algorithm they fit:
+	// the crypto builds must agree on the outcome and on the bytes, and what is signed verifies
+	#[cfg(not(feature = "nocrypto"))]
+	for (name, alg, der) in &keyset {
+		let fits: Vec<&'static SignatureAlgorithm> = if name.starts_with("rsa") { vec![&PKCS_RSA_SHA256, &PKCS_RSA_SHA384, &PKCS_RSA_SHA512] } else { vec![*alg] };
+		for a in fits {
+			for (loader, res) in crate::props::c01::loaded_keys(a, der) {
+				let tag = format!("loaded {} {} {}", name, alg_name(a), loader);
+				match res {
+					Ok(k) => {
+						let mut p = PCert::default_like();
+						p.serial = Some(vec![0x21]);
+						p.kid = Kid::Pre(vec![0x24; 20]);
+						let rp = p.real().unwrap();
+						match rp.self_signed(&k) {
+							Ok(c) => {
+								let (tbs, _, _) = crate::der::split_signed(c.der()).unwrap();
+								// auto-detecting loaders pick SHA-256 for RSA whatever `a` is: the bytes say which
+								lines.push(format!("{} crypto-only (ok {} {})", tag, alg_name(k.algorithm()), hex(&tbs)));
+								s.rep.case(&tag, true);
+								verify_everywhere(&mut s, "cert", c.der(), &k);
+							},
+							Err(e) => lines.push(format!("{} crypto-only (sign-err {})", tag, err_name(&e))),
+						}
+					},
+					Err(e) => lines.push(format!("{} crypto-only (load-err {})", tag, err_name(&e))),
+				}
+			}
 		}
 	}
 	let _ = std::fs::create_dir_all("/verif/.cache");
